@@ -10,6 +10,7 @@ import (
 )
 
 type Finding struct {
+	Bounded    string   `json:"bounded,omitempty"` // finding of a bounded stand-in (the harness decides the region)
 	ID         string   `json:"id"`
 	Property   string   `json:"property"`
 	Properties []string `json:"properties"`
@@ -84,7 +85,7 @@ func cmdFunc(args []string) {
 	opts := &VerifyOpts{WorkDir: "/verif/.work/func", TimeoutS: *to, Agree: 1}
 	if kf, err := loadFindings("/verif/known_findings.json"); err == nil {
 		for _, f := range kf.Findings {
-			if f.Status == "open" {
+			if f.Status == "open" && f.Bounded == "" {
 				opts.Findings = append(opts.Findings, f)
 			}
 		}
